@@ -23,8 +23,8 @@ PROPERTIES = ["C10"]
 SPEC = os.path.join(vlib.SPEC, "mmatch")
 
 # (cfg, module, exports pairs?)
-QUICK = [("MC_q_res", True), ("MC_q_ep", True), ("MC_q_grp", True), ("MC_q_zero", True), ("MC_q_act", False)]
-THOROUGH = [("MC_q_ep", True), ("MC_q_zero", True), ("MC_t_act", False), ("MC_t_res", True), ("MC_t_grp", True),
+QUICK = [("MC_q_res", True), ("MC_q_ep", True), ("MC_q_grp", True), ("MC_q_grp3", True), ("MC_q_zero", True), ("MC_q_act", False)]
+THOROUGH = [("MC_q_ep", True), ("MC_q_zero", True), ("MC_q_grp3", True), ("MC_t_act", False), ("MC_t_res", True), ("MC_t_grp", True),
             ("MC_t_u3r3c4", True), ("MC_t_u3r4c2", False), ("MC_t_ep", True), ("MC_t_grp2", True),
             ("MC_t_grp3", True), ("MC_t_zero", False), ("MC_t_u2r4c4", False), ("MC_t_u3r4c4", False)]
 
